@@ -12,8 +12,33 @@ MODULES = ["contracts.c13"]
 def run(rep, tier, seed, only=None):
     from gsvc import contract
     contract.standard_run(rep, "C13", MODULES, tier, seed, only)
+    if not only:
+        _position_read_facts(rep)
 
 
 def replay(path):
     from gsvc import contract
     return contract.standard_replay("C13", MODULES, path)
+
+
+def _position_read_facts(rep):
+    """lat-lon (and every other) kriging reads the conditioning / target positions only through
+    model.isometrize (+ anisometrize for drift functions): read sets of the frames engine"""
+    import time
+    from gsvc import frames
+    from gsvc.core import Obligation, DISCHARGED, FAILED, ERROR
+    for q, must in (("Krige.set_condition", "model.isometrize()"), ("Krige._get_krige_vecs", "model.cov_nugget"),
+                    ("Krige._get_krige_mat", "model.covariance()")):
+        oid = "C13/reads/krige/base.py:%s/positions-only-through-%s" % (q, must.replace("()", ""))
+        t0 = time.time()
+        try:
+            r = set(frames.reads("krige/base.py", q))
+        except Exception as e:
+            rep.add(Obligation(oid, ERROR, "dataflow", 0.0, "reads() failed: %r" % (e,)))
+            continue
+        bad = sorted(x for x in r if x.split(".")[-1].replace("()", "") in ("latlon2pos", "pos2latlon", "geo_scale", "_geo_scale"))
+        ok = must in r and not bad
+        rep.add(Obligation(oid, DISCHARGED if ok else FAILED, "dataflow", time.time() - t0,
+                           "" if ok else "missing %s or direct geometry reads %s" % (must, bad),
+                           witness=None if ok else {"function": q, "reads": sorted(r)[:30], "how": "frames read set"},
+                           functions=["krige/base.py:" + q]))
